@@ -35,7 +35,7 @@ func init() {
 		Run:          runC16,
 		BeatTimeoutS: 90,
 		Exhaustive:   true,
-		Required:     []string{"faults_injected", "failures_checked_closed", "successes_checked_open", "deadline_ops_checked", "blocking_scenarios"},
+		Required:     []string{"faults_injected", "failures_checked_closed", "successes_checked_open", "deadline_ops_checked", "blocking_scenarios", "context_cancellations", "handshakes_finishing_just_after_the_limit"},
 		CaseTimeoutS: 300,
 		Assumptions: []string{
 			"exhaustive over operation index x fault kind for every listed configuration; TLS configurations run over an in-memory pipe against an in-process TLS peer, so the number of raw operations varies slightly between runs",
